@@ -10,9 +10,18 @@ EXTRA = {'C01-2A': ['C01', 'C15', 'C04'], 'C01-2B': ['C01', 'C16'], 'C03-2A': ['
          'C10-A': ['C10', 'C16'], 'C06-B': ['C06'], 'C04-A': ['C04', 'C15'], 'C16-A': ['C16', 'C10'], 'C01-A': ['C01', 'C14'],
          'C02-3B': ['C02', 'C13'], 'C16-3B': ['C16', 'C01', 'C03'], 'C03-3A': ['C03', 'C16'], 'C04-3B': ['C04', 'C07'], 'C07-3B': ['C07', 'C04'], 'C08-3A': ['C08', 'C07'], 'C08-3B': ['C08', 'C07'],
          'C05-3A': ['C05', 'C13'], 'C06-3A': ['C06', 'C07'], 'C10-3A': ['C10', 'C15'], 'C01-3A': ['C01', 'C16'], 'C15-3B': ['C15', 'C13'], 'C04-3A': ['C04', 'C12'], 'C02-3A': ['C02', 'C10']}
+def sources():
+    """(directory, seed id, property) of every candidate the sub-agents left under /tmp"""
+    out = []
+    for d in sorted(glob.glob('/tmp/seed/C??/[AB]')): out.append((d, '%s-%s' % (d.split('/')[3], d.split('/')[4]), d.split('/')[3]))
+    for r, tag in (('/tmp/seed2', '2'), ('/tmp/seed3', '3'), ('/tmp/seed5', '4')):
+        for d in sorted(glob.glob(r + '/C??/[AB]')): out.append((d, '%s-%s%s' % (d.split('/')[3], tag, d.split('/')[4]), d.split('/')[3]))
+    for x, tag in (('a', ''), ('b', '2'), ('c', '3')):
+        for d in sorted(glob.glob('/tmp/seed4/C18%s/[AB]' % x)): out.append((d, 'C18-%s%s' % (tag, d.split('/')[4]), 'C18'))
+    return out
 def imp():
-    for d in sorted(glob.glob('/tmp/seed/C??/[AB]')) + sorted(glob.glob('/tmp/seed2/C??/[AB]')) + sorted(glob.glob('/tmp/seed3/C??/[AB]')):
-        prop = d.split('/')[3]; x = d.split('/')[4]; sid = '%s-%s%s' % (prop, '2' if d.startswith('/tmp/seed2/') else '3' if d.startswith('/tmp/seed3/') else '', x)
+    for d, sid, prop in sources():
+        if not all(os.path.exists(os.path.join(d, f)) for f in ('patch.diff', 'demo.py', 'meta.json')): continue
         out = os.path.join(V, 'seeded', sid)
         if os.path.exists(os.path.join(out, 'meta.json')): continue          # keep what earlier rounds recorded
         os.makedirs(out, exist_ok=True)
